@@ -1,1 +1,175 @@
-// replay templates for unit shutdown
+// Replay templates for the shutdown unit (C07): concrete scenarios against the REAL crate.
+// Compiled inside `crate::server::verif_replays` (feature verif-hooks, test builds).
+use super::*;
+use std::cell::RefCell;
+use std::rc::Rc;
+use tracing::Span;
+
+#[derive(Debug, Clone, Copy, PartialEq, Eq)]
+enum Ev { Polled(bool), Told }
+
+/// A connection that records what is done to it; it finishes when `done` is set.
+struct TestConn { log: Rc<RefCell<Vec<Ev>>>, done: Rc<RefCell<bool>> }
+impl Future for TestConn {
+    type Output = Result<(), std::io::Error>;
+    fn poll(self: Pin<&mut Self>, _cx: &mut Context<'_>) -> Poll<Self::Output> {
+        let ready = *self.done.borrow();
+        self.log.borrow_mut().push(Ev::Polled(ready));
+        if ready { Poll::Ready(Ok(())) } else { Poll::Pending }
+    }
+}
+impl Connection for TestConn {
+    fn graceful_shutdown(self: Pin<&mut Self>) { self.log.borrow_mut().push(Ev::Told); }
+}
+
+fn poll_now<F: Future + ?Sized>(f: Pin<&mut F>) -> Poll<F::Output> {
+    let waker = futures_util::task::noop_waker();
+    let mut cx = Context::from_waker(&waker);
+    f.poll(&mut cx)
+}
+fn told(log: &Rc<RefCell<Vec<Ev>>>) -> usize { log.borrow().iter().filter(|e| **e == Ev::Told).count() }
+
+/// gd.once / gd.keep / gd.finish / gd.finish_not_early / gd.told_when_closed [C07]: one driver over many polls, the
+/// shutdown channel closing while the connection is still busy.
+#[test]
+fn gd_once_keep_finish() {
+    let log = Rc::new(RefCell::new(Vec::new()));
+    let done = Rc::new(RefCell::new(false));
+    let (mut shutdown_tx, shutdown_rx) = close();
+    let (mut finished_tx, finished_rx) = close();
+    let conn = TestConn { log: log.clone(), done: done.clone() }.instrument(Span::none());
+    let mut driver = Box::pin(GracefulConnectionDriver::<_, std::io::Error>::new(
+        conn, shutdown_rx, finished_tx.clone(), Span::none()));
+    finished_tx.send(); // only the driver's handle keeps the `finished` channel open now
+
+    // before the signal: polled, not told
+    assert!(poll_now(driver.as_mut()).is_pending());
+    assert!(poll_now(driver.as_mut()).is_pending());
+    assert_eq!(*log.borrow(), vec![Ev::Polled(false), Ev::Polled(false)]);
+    assert!(!finished_rx.0.is_closed(), "finished released before the connection is done");
+
+    // the shutdown channel closes while the connection is still busy
+    shutdown_tx.send();
+    assert!(poll_now(driver.as_mut()).is_pending());
+    assert_eq!(told(&log), 1, "the connection must be told to shut down when the channel closes");
+    // gd.keep: told, then polled again in the same call
+    assert_eq!(log.borrow()[2..], [Ev::Polled(false), Ev::Told, Ev::Polled(false)]);
+
+    // further polls: still driven, never told again
+    for _ in 0..3 {
+        assert!(poll_now(driver.as_mut()).is_pending());
+    }
+    assert_eq!(told(&log), 1, "graceful_shutdown must be called at most once");
+    assert_eq!(*log.borrow().last().unwrap(), Ev::Polled(false));
+    assert!(!finished_rx.0.is_closed(), "finished released before the connection is done");
+
+    // the connection completes: the driver completes and releases its `finished` handle
+    *done.borrow_mut() = true;
+    assert!(poll_now(driver.as_mut()).is_ready());
+    assert_eq!(*log.borrow().last().unwrap(), Ev::Polled(true));
+    assert_eq!(told(&log), 1);
+    assert!(finished_rx.0.is_closed(), "finished.send() was not called when the connection completed");
+}
+
+/// cs.send [C07]: `send` releases the handle: with the last handle sent the channel is closed.
+#[test]
+fn cs_send_closes() {
+    let (mut tx, rx) = close();
+    let mut tx2 = tx.clone();
+    tx.send();
+    assert!(!rx.0.is_closed());
+    tx2.send();
+    assert!(rx.0.is_closed());
+}
+
+// ---- a whole `GracefulShutdown` future over the real `Serving`, with a recording protocol / executor ----
+thread_local! { static ORDER: RefCell<Vec<&'static str>> = RefCell::new(Vec::new()); }
+fn note(s: &'static str) { ORDER.with(|o| o.borrow_mut().push(s)); }
+
+/// acceptor wrapper that records every poll of the real duplex acceptor
+struct NotingAccept(crate::stream::duplex::DuplexIncoming);
+impl Accept for NotingAccept {
+    type Conn = crate::stream::duplex::DuplexStream;
+    type Error = std::io::Error;
+    fn poll_accept(mut self: Pin<&mut Self>, cx: &mut Context<'_>) -> Poll<Result<Self::Conn, Self::Error>> {
+        note("accept");
+        Pin::new(&mut self.0).poll_accept(cx)
+    }
+}
+/// protocol whose connections are `TestConn`s sharing one log
+struct TestProto { log: Rc<RefCell<Vec<Ev>>>, done: Rc<RefCell<bool>> }
+impl<S, IO> Protocol<S, IO, crate::Body> for TestProto {
+    type ResponseBody = crate::Body;
+    type Error = std::io::Error;
+    type Connection = TestConn;
+    fn serve_connection_with_upgrades(&self, _stream: IO, _service: S) -> TestConn {
+        TestConn { log: self.log.clone(), done: self.done.clone() }
+    }
+}
+type Spawned = Rc<RefCell<Vec<Pin<Box<dyn Future<Output = ()>>>>>>;
+#[derive(Clone)]
+struct Rec(Spawned);
+impl<F: Future<Output = ()> + 'static> hyper::rt::Executor<F> for Rec {
+    fn execute(&self, fut: F) { self.0.borrow_mut().push(Box::pin(fut)); }
+}
+
+/// gs.first / gs.stop / gs.stop_only_on_signal / gs.spawn [C07]
+#[tokio::test]
+async fn gs_first_stop_spawn() {
+    use std::sync::atomic::{AtomicBool, Ordering};
+    ORDER.with(|o| o.borrow_mut().clear());
+    let log = Rc::new(RefCell::new(Vec::new()));
+    let done = Rc::new(RefCell::new(false));
+    let spawned: Spawned = Rc::new(RefCell::new(Vec::new()));
+    let (client, incoming) = crate::stream::duplex::pair();
+    let svc = crate::service::make_service_fn(|_: &crate::stream::duplex::DuplexStream| {
+        std::future::ready(Ok::<_, std::convert::Infallible>(tower::service_fn(|_: http::Request<crate::Body>| {
+            std::future::ready(Ok::<_, std::convert::Infallible>(http::Response::new(crate::Body::empty())))
+        })))
+    });
+    let flag = std::sync::Arc::new(AtomicBool::new(false));
+    let f2 = flag.clone();
+    let signal = std::future::poll_fn(move |_| {
+        if f2.load(Ordering::SeqCst) { note("signal:ready"); Poll::Ready(()) } else { note("signal:pending"); Poll::Pending }
+    });
+    let server = Server::new(NotingAccept(incoming), TestProto { log: log.clone(), done: done.clone() }, svc, Rec(spawned.clone()));
+    let mut serving = Box::pin(server.with_graceful_shutdown(signal));
+
+    // one client connects while no signal is there: it is accepted and handed to the executor
+    let mut c1 = Box::pin(client.connect(1024));
+    assert!(futures_util::poll!(&mut c1).is_pending());
+    assert!(poll_now(serving.as_mut()).is_pending());
+    assert_eq!(spawned.borrow().len(), 1, "the accepted connection was not handed to the executor");
+    assert!(matches!(futures_util::poll!(&mut c1), Poll::Ready(Ok(_))));
+    // gs.first: every accept poll directly follows a pending signal poll
+    let order = ORDER.with(|o| o.borrow().clone());
+    assert!(order.iter().filter(|e| **e == "accept").count() >= 2);
+    for (i, e) in order.iter().enumerate() {
+        if *e == "accept" { assert_eq!(order[i - 1], "signal:pending", "accept polled without checking the signal first: {order:?}"); }
+    }
+    // gs.stop_only_on_signal: the spawned driver is driven, its connection is not told to shut down
+    let mut driver = spawned.borrow_mut().pop().unwrap();
+    assert!(poll_now(driver.as_mut()).is_pending());
+    assert_eq!(told(&log), 0, "connection told to shut down although the signal has not fired");
+
+    // the signal fires while another client is already waiting to be accepted
+    let mut c2 = Box::pin(client.connect(1024));
+    assert!(futures_util::poll!(&mut c2).is_pending());
+    flag.store(true, Ordering::SeqCst);
+    let before = ORDER.with(|o| o.borrow().len());
+    match poll_now(serving.as_mut()) {
+        Poll::Ready(Ok(())) => {}
+        other => panic!("gs.stop: expected Ready(Ok(())) once the signal resolved, got {other:?}"),
+    }
+    let after = ORDER.with(|o| o.borrow()[before..].to_vec());
+    assert_eq!(after, vec!["signal:ready"], "gs.first: nothing may be polled after the signal resolved");
+    assert!(!matches!(futures_util::poll!(&mut c2), Poll::Ready(Ok(_))), "a connection was accepted after the signal");
+    assert_eq!(spawned.borrow().len(), 0);
+    // gs.stop + gs.spawn: the driver spawned earlier watches this server's channel: it now tells its connection
+    assert!(poll_now(driver.as_mut()).is_pending());
+    assert_eq!(told(&log), 1, "shutdown.send() did not reach the spawned driver's connection");
+    assert_eq!(*log.borrow().last().unwrap(), Ev::Polled(false), "gd.keep");
+    *done.borrow_mut() = true;
+    assert!(poll_now(driver.as_mut()).is_ready());
+    drop(client);
+}
